@@ -2,6 +2,7 @@
    Python equality [py_eq] is an equivalence, subclassing is a preorder. *)
 From PG Require Import Common.Tactics Model.Typing.
 Local Open Scope Z_scope.
+Local Arguments Z.mul : simpl never.
 
 (* ------------------------------------------------------------------------------------------ *)
 (** * Induction principles for the nested types *)
@@ -202,12 +203,12 @@ Proof.
   destruct a.
   - destruct b; simpl in H; try discriminate; reflexivity.
   - destruct b; simpl in H; try discriminate; reflexivity.
-  - destruct b0; simpl in H; try discriminate; simpl; f_equal;
-      repeat match goal with b : bool |- _ => destruct b end; lia.
   - destruct b; simpl in H; try discriminate; simpl; f_equal;
-      repeat match goal with b : bool |- _ => destruct b end; lia.
+      repeat match goal with b : bool |- _ => destruct b end; try discriminate; lia.
   - destruct b; simpl in H; try discriminate; simpl; f_equal;
-      repeat match goal with b : bool |- _ => destruct b end; lia.
+      repeat match goal with b : bool |- _ => destruct b end; try discriminate; lia.
+  - destruct b; simpl in H; try discriminate; simpl; f_equal;
+      repeat match goal with b : bool |- _ => destruct b end; try discriminate; lia.
   - destruct b; simpl in H; try discriminate. apply str_eqb_eq in H. subst. reflexivity.
   - destruct b; try (simpl in H; discriminate). rewrite py_eq_list in H. eauto.
   - destruct b; try (simpl in H; discriminate). rewrite py_eq_tuple in H. eauto.
@@ -218,7 +219,7 @@ Proof.
 Qed.
 
 Lemma list_eqb_trans : forall xs ys zs,
-  Forall (fun x => forall b c, py_eq x b = true -> py_eq b c = true -> py_eq x c = true) xs ->
+  Forall (fun x => forall y z, py_eq x y = true -> py_eq y z = true -> py_eq x z = true) xs ->
   list_eqb py_eq xs ys = true -> list_eqb py_eq ys zs = true -> list_eqb py_eq xs zs = true.
 Proof.
   induction xs; destruct ys; destruct zs; simpl; intros F H1 H2; try discriminate; auto.
@@ -227,7 +228,7 @@ Proof.
 Qed.
 
 Lemma dict_incl_trans : forall xs ys zs,
-  Forall (fun kv => forall b c, py_eq (snd kv) b = true -> py_eq b c = true -> py_eq (snd kv) c = true) xs ->
+  Forall (fun kv => forall y z, py_eq (snd kv) y = true -> py_eq y z = true -> py_eq (snd kv) z = true) xs ->
   dict_incl py_eq xs ys = true -> dict_incl py_eq ys zs = true -> dict_incl py_eq xs zs = true.
 Proof.
   unfold dict_incl. intros xs ys zs F H1 H2. rewrite forallb_forall in *. rewrite Forall_forall in F.
@@ -242,20 +243,20 @@ Qed.
 
 (* the reverse inclusion needs transitivity at the elements of the middle dict; we get it from
    the first dict through the forward inclusion, see py_eq_trans *)
-Lemma py_eq_trans : forall a b c, py_eq a b = true -> py_eq b c = true -> py_eq a c = true.
+Lemma py_eq_trans : forall a y w, py_eq a y = true -> py_eq y w = true -> py_eq a w = true.
 Proof.
-  induction a using pv_ind'; intros b c H1 H2; pose proof (py_eq_shape _ _ H1) as S1; simpl in S1.
+  induction a using pv_ind'; intros y w H1 H2; pose proof (py_eq_shape _ _ H1) as S1; simpl in S1.
   - subst. exact H2.
   - subst. exact H2.
-  - destruct (num_of_some_kind b0 _ S1) as [[x E]|[[x E]|[x E]]]; subst b0;
+  - destruct (num_of_some_kind y _ S1) as [[x E]|[[x E]|[x E]]]; subst y;
       pose proof (py_eq_shape _ _ H2) as S2; simpl in S2, S1;
-      erewrite py_eq_num; [apply Z.eqb_refl| reflexivity | rewrite S2; exact S1 ].
-  - destruct (num_of_some_kind b _ S1) as [[x E]|[[x E]|[x E]]]; subst b;
+      (erewrite py_eq_num; [apply Z.eqb_refl| reflexivity | rewrite S2; exact S1 ]).
+  - destruct (num_of_some_kind y _ S1) as [[x E]|[[x E]|[x E]]]; subst y;
       pose proof (py_eq_shape _ _ H2) as S2; simpl in S2, S1;
-      erewrite py_eq_num; [apply Z.eqb_refl| reflexivity | rewrite S2; exact S1 ].
-  - destruct (num_of_some_kind b _ S1) as [[x E]|[[x E]|[x E]]]; subst b;
+      (erewrite py_eq_num; [apply Z.eqb_refl| reflexivity | rewrite S2; exact S1 ]).
+  - destruct (num_of_some_kind y _ S1) as [[x E]|[[x E]|[x E]]]; subst y;
       pose proof (py_eq_shape _ _ H2) as S2; simpl in S2, S1;
-      erewrite py_eq_num; [apply Z.eqb_refl| reflexivity | rewrite S2; exact S1 ].
+      (erewrite py_eq_num; [apply Z.eqb_refl| reflexivity | rewrite S2; exact S1 ]).
   - subst. exact H2.
   - destruct S1 as [ys [E L1]]. subst. pose proof (py_eq_shape _ _ H2) as S2. simpl in S2.
     destruct S2 as [zs [E L2]]. subst. rewrite py_eq_list. eapply list_eqb_trans; eauto.
